@@ -1256,6 +1256,24 @@ def gen_c05(rng, tier):
         q = gen.gen_ctx(rng, 3, d)
         base["ops"] = [fit0, ("pexp", q), ("fit", ds, [draw() for _ in range(n)], cxn), ("pexp", q)] + base["ops"][1:]
         return {"base": base, "n_jobs": 2, "backend": None, "mode": "jobs", "seed2": rng.randint(0, 10**9)}
+    if z >= 0.9:
+        # context-free bandit with several workers: partial_fit batches restricted to a few arms (whole groups of arms absent),
+        # a query after each - every arm must be refreshed as with one worker (UCB1's bonus depends on the new total count)
+        base = gen.gen_cf_case(rng, max_ops=0, warm=False, foreign_decisions=False, max_rows=30)
+        arms = list(base["arms"])
+        while len(arms) < 4:
+            arms.append(max(arms) + 1)
+        base["arms"] = arms
+        draw = gen.reward_stream(rng, "binary" if base["lp"][0] == "thompson" else ("nonneg_dyadic" if base["lp"][0] == "popularity" else "dyadic"))
+        n0 = rng.randint(len(arms), 20)
+        ops = [("fit", [arms[i % len(arms)] for i in range(n0)], [draw() for _ in range(n0)], None), ("pexp", None)]
+        for _ in range(rng.randint(2, 4)):
+            k = rng.randint(1, max(1, len(arms) // 2)); start = rng.randrange(len(arms))
+            sub = [arms[(start + i) % len(arms)] for i in range(k)] if rng.random() < 0.5 else arms[:k]
+            n = rng.randint(1, 6)
+            ops += [("pfit", [rng.choice(sub) for _ in range(n)], [draw() for _ in range(n)], None), ("pexp", None)]
+        base["ops"] = ops
+        return {"base": base, "n_jobs": rng.choice([2, 2, 3, 4, -1]), "backend": rng.choice(["threading", None]), "mode": "jobs", "seed2": rng.randint(0, 10**9)}
     if z < 0.17:
         # Radius / KNearest with a metric whose parameters scipy estimates from the data (seuclidean, mahalanobis) or another
         # rarely used one; fit -> query -> partial_fit with differently spread contexts -> query; process-based workers
@@ -1507,7 +1525,23 @@ def gen_c18(rng, tier):
         jit = lambda cx: [[v + rng.uniform(-0.4, 0.4) * 1.1 for v in row] for row in cx]
         base["ops"] = [((o[0], o[1], o[2], jit(o[3])) if o[0] in ("fit", "pfit") and o[3] is not None else
                         ((o[0], jit(o[1])) if o[0] in ("pred", "pexp") and o[1] is not None else o)) for o in base["ops"]]
-    return {"base": base, "kind": rng.choice(CONTAINERS[1:])}
+    kind = rng.choice(CONTAINERS[1:])
+    if base.get("np") is None or base["np"][0] not in ("clusters", "knearest"):
+        fit0 = next((o for o in base["ops"] if o[0] == "fit" and o[3] is not None), None)
+        if fit0 is not None and rng.random() < 0.3:
+            # a re-fit on a single decision (or a single feature) of ANOTHER width, then a query of that width: as a Series the
+            # contexts of a training call are read by the number of decisions, whatever the bandit was trained on before
+            d = len(fit0[3][0]); a0 = base["arms"][0]
+            r1 = 1.0 if base["lp"][0] == "thompson" else 2.0
+            if d == 1 or rng.random() < 0.5:
+                d2 = d + rng.choice([1, 2])
+                base["ops"] = list(base["ops"]) + [("fit", [a0], [r1], gen.gen_ctx(rng, 1, d2)), ("pexp", gen.gen_ctx(rng, 1, d2))]
+            else:
+                n2 = rng.randint(3, 5)
+                base["ops"] = list(base["ops"]) + [("fit", [a0] * n2, [r1] * n2, gen.gen_ctx(rng, n2, 1)), ("pexp", gen.gen_ctx(rng, 2, 1))]
+            if rng.random() < 0.6:
+                kind = "series"
+    return {"base": base, "kind": kind}
 
 def run_c18(t):
     base = t["base"]; kind = t["kind"]
